@@ -13,7 +13,7 @@
      produces absent (sizeref, sort key, alignment of arrays, factory type), import paths without quote / backslash / line break,
      comments non-empty whose LF-separated segments neither begin nor end with a character Comment.__init__ strips, and a free
      comment never directly before an uncommented declaration (it would attach to it). *)
-From Symv Require Import Base.Bytes Cats.Ast Cats.Syntax Cats.SyntaxLexProofs Cats.SyntaxProofs.
+From Symv Require Import Base.Bytes Cats.Ast Cats.Syntax Cats.SyntaxLexProofs Cats.SyntaxProofs Cats.SyntaxRepoProofs.
 Open Scope Z_scope.
 
 (* the side conditions on the regenerated sets (prefix-freeness of alternatives tried in one parser state, shapes of keywords,
@@ -52,6 +52,22 @@ Corollary one_descriptor_per_declaration : forall st ds, wf_style st = true -> w
     /\ map decl_name (decls_of items) = map decl_name (decls_of ds).
 Proof. intros st ds Hst Hwf. exists ds. rewrite (parse_render st ds Hst Hwf). repeat split. Qed.
 Print Assumptions one_descriptor_per_declaration.
+
+(* [core] print-back: printing the parsed declarations back with the repo's own __str__ methods (layout `repo_print`, see
+   harness/checks/c04.py) and parsing again yields the same declarations and imports (free comments are not statements and are
+   not printed).  Needs Attribute.__str__ to skip lark's None placeholders (D4) -- the `reflexivity` on attr_str_skips_none fails
+   on a tree without that repair.
+   `_partial`: the FULL statement has no premise `no_not_arguments ds`; it is false for the implementation: an attribute argument
+   that is the property name `not` (e.g. @size(not)) is printed as a qualifier (`@size()`), and a pinned test
+   (test_can_create_attribute_with_multiple_values_and_negations) fixes that behaviour -- known finding
+   `attribute-str-takes-property-named-not-for-negation`. *)
+Theorem parse_repo_str_partial : forall ds,
+  wf_doc ds = true -> no_not_arguments ds = true -> strip_free_comments ds <> [] ->
+  parse (repo_print ds) = Ok (strip_free_comments ds).
+Proof.
+  intros ds. apply (SyntaxRepoProofs.parse_repo_str_with T_now ds terminals_ok); [reflexivity|reflexivity|vm_compute; reflexivity].
+Qed.
+Print Assumptions parse_repo_str_partial.
 
 (* non-vacuity: a document with every kind of statement is well-formed and is printed / parsed as expected *)
 Example parse_render_example :
